@@ -170,6 +170,21 @@ func init() {
 			"(do (def lp (fn [n] (if (< n 1) (t! :done) (do (if (= n 2000) (t! :half)) (lp (- n 1)))))) (lp 4000))",
 			"(do (def ev (fn [n] (if (< n 1) (t! :even) (od (- n 1))))) (def od (fn [n] (if (< n 1) (t! :odd) (ev (- n 1))))) (ev 3001))",
 		}
+		// fixed programs: a try whose handler ends in a call / let that rebinds a name the finally body reads,
+		// and bare panicking Go functions in bodies and handlers (under every script)
+		fixedProgs := []string{
+			"(let [x 1] (try (throw 1) (catch e ((fn [x] (t! x)) 2)) (finally (t! x))))",
+			"(let [x 1] (try (throw 1) (catch e (let [x 3] (t! x))) (finally (t! x) (t! y))))",
+			"(let [x 1] (try (throw 1) (catch x (do (t! x) ((fn [y] (t! y)) 4))) (finally (t! x))))",
+			"(try (list :in (try (rawpan!) (catch e (t! 1) :h) (finally (t! :fin)))) (catch z :outer))",
+			"(try (list :in (try (throw 1) (catch e (t! 1) (rawpan!)) (finally (t! :fin))) (t! :after)) (catch z :outer))",
+			"(try (list (t! 1) (apply rawpan! (list)) (t! 2)) (catch z (t! :c) :outer))",
+			"(try (list 1 (rawpan!)) (catch e (t! e) (str e)))",
+			"(try (+ 1 (do (t! 1) (rawpan!))) (catch e (list :caught e)))",
+			"(do (def gp (fn [] (list 2 (rawpan!)))) (try (list 1 (gp)) (catch e (str e))))",
+			"(do (def gp (fn [] (t! :gp) (rawpan!))) (try (do (t! 0) (gp) (t! 9)) (catch z (t! :c) 5) (finally (t! :fin))))",
+		}
+		srcs = append(srcs, src{"fixed", func() int64 { return int64(len(fixedProgs)) }, func(i int64) V { return model.FromImpl(lx.MustRead(fixedProgs[i])) }})
 		srcs = append(srcs, src{"loop", func() int64 { return int64(len(loopProgs)) }, func(i int64) V { return model.FromImpl(lx.MustRead(loopProgs[i])) }})
 		progOf := func(i int64) (V, string) {
 			for _, s := range srcs {
@@ -182,7 +197,7 @@ func init() {
 		}
 		fam := &vf.Family{
 			Name:   "programs-x-scripts",
-			Bounds: "programs: all core-form programs (C01 grammar + (t! x), (t! y)) of weight <=4, all try nests (C03 grammar) of weight <=3/<=4, all template macros (C12 code grammar, weight <=3) x operand tuples of length 1-2, and 3 tail-recursive loops of 3000-4000 iterations (under the four one-command scripts); each run under every stepper command script of length 1..3 (quick, 84) / 1..4 (thorough, 340) over {noop, next, in, out}, applied cyclically",
+			Bounds: "programs: all core-form programs (C01 grammar + (t! x), (t! y)) of weight <=4, all try nests (C03 grammar) of weight <=3/<=4, all template macros (C12 code grammar, weight <=3) x operand tuples of length 1-2, 10 fixed programs (handlers ending in a call or let that rebinds what finally reads; bare panicking Go functions), and 3 tail-recursive loops of 3000-4000 iterations (under the four one-command scripts); each run under every stepper command script of length 1..3 (quick, 84) / 1..4 (thorough, 340) over {noop, next, in, out}, applied cyclically",
 			Setup:  setup,
 			N: func(t string) int64 {
 				tier = t
